@@ -11,7 +11,9 @@ RULE = ("texts from the C07 layout generator (all directive kinds, @performance/
         "text and the extracted sem/gaps of original and formatted trees are compared (same_sem_gaps_b), and "
         "formatting the re-parsed file must reproduce the same bytes.  Through the binary: `knut format FILE`, the "
         "file's bytes afterwards must be the model's (rewritten) or the input (parse error, exit 1) and no other "
-        "directory entry may remain.  Non-trivial: the text parses and formatting changes it, or it does not parse "
+        "directory entry may remain; and `knut format f0 .. fn` (2-7 files, 40% of them formatted already, GOMAXPROCS 1/2/16) "
+        "run twice on one directory: every file must hold the model's bytes after each run and the second run must "
+        "change nothing (op C08.multi).  Non-trivial: the text parses and formatting changes it, or it does not parse "
         "and is not empty; distinct by input.")
 TRUSTED_BASE = [
     "Coq 8.16.1 kernel",
@@ -25,8 +27,8 @@ ASSUMPTIONS = ["atomic.WriteFile replaces the file or leaves it (C18's subject);
 
 def plan(tier, seed):
     if tier == "quick":
-        return [("C08", seed, 800, []), ("C08cmd", seed, 150, [])]
-    return [("C08", seed + k, 25000, []) for k in range(4)] + [("C08cmd", seed, 3000, [])]
+        return [("C08", seed, 800, []), ("C08cmd", seed, 150, []), ("C08multi", seed, 60, [])]
+    return [("C08", seed + k, 25000, []) for k in range(4)] + [("C08cmd", seed, 3000, []), ("C08multi", seed, 1500, [])]
 
 
 def search_plan(seed):
@@ -36,10 +38,14 @@ def search_plan(seed):
 def compare(c):
     if c.op == "C08.format":
         return c.observed.split(" ; ")[0] == c.model
+    if c.op == "C08.multi":
+        return c.observed == c.model
     return " ".join(c.observed.split(" ")[:2]) == c.model
 
 
 def nontrivial(c):
+    if c.op == "C08.multi":
+        return True
     if c.op == "C08.format":
         if c.observed.startswith("OK "):
             return c.observed.split(" ")[1] != c.input
@@ -53,6 +59,10 @@ def distribution(cases):
          "bytes_total": 0, "directives": 0, "transactions": 0, "with_addons": 0, "multi_line_assertions->single": 0,
          "crlf_inputs": 0, "no_final_newline": 0}
     for c in cases:
+        if c.op == "C08.multi":
+            d["multi_runs"] = d.get("multi_runs", 0) + 1
+            d["multi_files"] = d.get("multi_files", 0) + c.input.count(",") + 1
+            continue
         n = len(c.input) // 2
         d["bytes_total"] += n
         if "0d0a" in c.input:
